@@ -344,24 +344,31 @@ pub fn run_scenario(sc: &Scenario, fault: Option<(u64, usize)>, prior: &[u8], ou
     })
 }
 
+fn ids_str(v: &[usize]) -> String {
+    if v.is_empty() { "-".to_string() } else { v.iter().map(|x| x.to_string()).collect::<Vec<_>>().join(",") }
+}
+
 fn result_line(r: &RunResult) -> String {
     if r.status == "OK" {
-        format!("OK {} {} {} {} {}", r.moved,
-            if r.fed.is_empty() { "-".to_string() } else { r.fed.iter().map(|x| x.to_string()).collect::<Vec<_>>().join(",") },
-            hex(&r.file), r.trace_s, r.idx)
+        format!("OK {} {} {} {} {} {}", r.moved, ids_str(&r.fed), ids_str(&r.remaining), hex(&r.file), r.trace_s, r.idx)
     } else {
         format!("ERR {} {}", hex(&r.file), r.trace_s)
     }
 }
 
-fn case_line(sc: &Scenario, prior: &[u8], out_idx: &Option<Idx>, fault: Option<(u64, usize)>, feeds: &[usize]) -> String {
-    format!("clone {} {} {} {} {}",
+fn feeds_str(sc: &Scenario, ids: &[usize]) -> String {
+    if ids.is_empty() { "-".to_string() } else {
+        ids.iter().map(|id| format!("{}={}", id, hex(&sc.u.datas[*id]))).collect::<Vec<_>>().join(";")
+    }
+}
+
+fn case_line(sc: &Scenario, prior: &[u8], out_idx: &Option<Idx>, fault: Option<(u64, usize)>, _feeds: &[usize]) -> String {
+    let arch: Vec<usize> = sc.clone_idx.iter().map(|e| e.0).collect();
+    format!("clone {} {} {} {} {} {}",
         hex(prior), idx_str(&sc.clone_idx),
         match out_idx { Some(i) => format!("I{}", idx_str(i)), None => "N".into() },
         match fault { Some((k, t)) => format!("{},{}", k, t), None => "-".into() },
-        if feeds.is_empty() { "-".to_string() } else {
-            feeds.iter().map(|id| format!("{}={}", id, hex(&sc.u.datas[*id]))).collect::<Vec<_>>().join(";")
-        })
+        feeds_str(sc, &sc.seeds), feeds_str(sc, &arch))
 }
 
 /// occurrences (offset -> id) of the source
@@ -619,8 +626,10 @@ pub fn replay(line: &str) -> Result<(), String> {
             // universe from the feeds and the prior content
             let mut u = Universe::new();
             let mut datas: BTreeMap<usize, Vec<u8>> = BTreeMap::new();
-            if t[5] != "-" {
-                for f in t[5].split(';') { let p: Vec<&str> = f.split('=').collect(); datas.insert(p[0].parse().unwrap(), unhex(p[1])); }
+            for tok in [t[5], t[6]] {
+                if tok != "-" {
+                    for f in tok.split(';') { let p: Vec<&str> = f.split('=').collect(); datas.insert(p[0].parse().unwrap(), unhex(p[1])); }
+                }
             }
             if let Some(oi) = &out_idx {
                 for (id, size, offs) in oi { if let Some(o) = offs.first() { datas.entry(*id).or_insert(prior[*o as usize..*o as usize + size].to_vec()); } }
@@ -638,7 +647,7 @@ pub fn replay(line: &str) -> Result<(), String> {
             for (_, id) in &occs { source.extend_from_slice(&u.datas[*id]); }
             // seeds = feeds before the archive phase are not distinguishable in the line: replay feeds as seeds
             let seeds: Vec<usize> = if t[5] == "-" { vec![] } else { t[5].split(';').map(|f| f.split('=').next().unwrap().parse().unwrap()).collect() };
-            let sc = Scenario { u, source, prior: prior.clone(), clone_idx, out_idx: out_idx.clone(), seeds: vec![], hl: 64, kind: "replay" };
+            let sc = Scenario { u, source, prior: prior.clone(), clone_idx, out_idx: out_idx.clone(), seeds: seeds.clone(), hl: 64, kind: "replay" };
             let (r, _) = run_scenario(&sc, fault, &prior, &out_idx);
             let _ = seeds;
             let mut st = Stats::default();
